@@ -82,8 +82,10 @@ class PopulationTemplate:
         for op_key in vec_node.op_graph.operators:
             op_vars = vec_node.op_graph.nodes[op_key]['variables']
             for var_key, var_data in op_vars.items():
-                if var_data['vtype'] not in ('state_var', 'constant', 'variable'):
-                    # input / input_variable are managed externally — leave untouched
+                if var_data['vtype'] not in ('state_var', 'constant', 'variable') and \
+                        f"{op_key}/{var_key}" not in self.params:
+                    # input / input_variable are managed externally — leave untouched (unless `params` provides the
+                    # value(s) that the input takes while nothing is connected to it)
                     continue
 
                 raw = var_data['value']
